@@ -548,7 +548,10 @@ class _ExtendedTypeFetcher(Thread):
 
     def _new_packet_cb(self, pk):
         """Callback for newly arrived packets"""
-        if pk.channel == MISC_CHANNEL:
+        # Other packets for the same parameter arrive on this channel as well (value
+        # updated notifications, replies to other misc requests): only an extended
+        # type reply answers the request
+        if pk.channel == MISC_CHANNEL and pk.data[0] == MISC_GET_EXTENDED_TYPE:
             var_id = struct.unpack('<H', pk.data[1:3])[0]
 
             if self._req_param == var_id:
